@@ -231,6 +231,76 @@ impl Connection {
 //@@ end
 }
 
+// ---------------------------------------------------------------------------------------------
+// the listener's connection (acceptor/connection.rs): a Begin the peer initiates
+//@@ type file=fe2o3-amqp/src/session/frame.rs kind=struct name=SessionFrame
+//@@ end
+pub enum SessionFrameBody { Begin(Begin), Other }
+impl SessionFrame {
+    pub fn new(channel: IncomingChannel, body: SessionFrameBody) -> (r: Self) ensures r.channel == channel.0, r.body == body { SessionFrame { channel: channel.0, body } }
+}
+pub struct ChanSendError { pub _p: u8 }
+pub open spec fn not_found_session() -> ConnectionInnerError;
+impl ErrInto<ConnectionInnerError> for ConnectionInnerError { open spec fn conv(self) -> ConnectionInnerError { self } fn err_into(self) -> (r: ConnectionInnerError) { let e = self; assert(e == <ConnectionInnerError as ErrInto<ConnectionInnerError>>::conv(self)); e } }
+impl ErrInto<ConnectionInnerError> for ChanSendError { open spec fn conv(self) -> ConnectionInnerError { not_found_session() } #[verifier::external_body] fn err_into(self) -> (r: ConnectionInnerError) { unimplemented!() } }
+impl SessionRelay {
+    /// `relay.send(frame).await` on the bounded channel to the session engine (not traced)
+    #[verifier::external_body]
+    pub fn send(&self, f: SessionFrame) -> (r: Result<(), ChanSendError>) { unimplemented!() }
+}
+/// the receiving half of a session's frame channel, handed to the application with the IncomingSession
+#[verifier::external_body]
+pub struct SessionRx { _p: u8 }
+pub const DEFAULT_OUTGOING_BUFFER_SIZE: usize = 2048;
+/// `mpsc::channel(n)`: a fresh relay and its receiving half
+#[verifier::external_body]
+pub fn mpsc_channel(n: usize) -> (r: (SessionRelay, SessionRx)) { unimplemented!() }
+//@@ type file=fe2o3-amqp/src/acceptor/mod.rs kind=struct name=IncomingSession
+//@@ subst `Option<mpsc::Receiver<SessionIncomingItem>>` => `Option<SessionRx>` rule=R9
+//@@ end
+/// `session_listener: mpsc::Sender<IncomingSession>`: ghost trace of what was handed to the application's SessionAcceptor
+pub struct SessionListener { pub sent: Ghost<Seq<IncomingSession>> }
+impl SessionListener {
+    #[verifier::external_body]
+    pub fn send(&mut self, v: IncomingSession) -> (r: Result<(), ChanSendError>)
+        ensures r is Ok ==> final(self).sent@ == old(self).sent@.push(v), r is Err ==> final(self).sent@ == old(self).sent@,
+    { unimplemented!() }
+}
+pub struct ListenerConnection { pub connection: Connection, pub session_listener: SessionListener }
+impl ListenerConnection {
+//@@ fn file=fe2o3-amqp/src/acceptor/connection.rs impl=`impl endpoint::Connection for ListenerConnection` name=on_incoming_begin as=listener_on_incoming_begin
+//@@ qmark
+//@@ ret Result<(), ConnectionInnerError>
+//@@ subst `mpsc::channel(DEFAULT_OUTGOING_BUFFER_SIZE)` => `mpsc_channel(DEFAULT_OUTGOING_BUFFER_SIZE)` rule=R9
+//@@ subst `.map_err(|_v0| <connection::Connection as endpoint::Connection>::Error::NotImplemented(None))` => `.map_err(|_v0: AllocSessionError| -> (o: ConnectionInnerError) { ConnectionInnerError::NotImplemented(None) })` rule=R18
+//@@ subst `.map_err(|_v1| <connection::Connection as endpoint::Connection>::Error::NotImplemented(None))` => `.map_err(|_v1: ChanSendError| -> (o: ConnectionInnerError) { ConnectionInnerError::NotImplemented(None) })` rule=R18
+//@@ subst `.expect("relay was just allocated")` => `.unwrap()` rule=R12
+//@@ spec
+    ensures
+        final(self).connection.local_state == old(self).connection.local_state,
+        // a begin the peer initiates (no remote-channel) on a free channel of an opened connection
+        r is Ok && begin.remote_channel is None ==> ({
+            let inc1 = final(self).connection.session_by_incoming_channel@;
+            let out0 = old(self).connection.session_by_outgoing_channel@;
+            let out1 = final(self).connection.session_by_outgoing_channel@;
+            &&& final(self).session_listener.sent@.len() == old(self).session_listener.sent@.len() + 1
+            &&& final(self).session_listener.sent@.last().channel == channel.0
+            &&& final(self).session_listener.sent@.last().outgoing_channel is Some
+            &&& ({ let och = final(self).session_listener.sent@.last().outgoing_channel->Some_0.0 as usize;
+                 &&& !out0.contains_key(och) && out1.dom() =~= out0.dom().insert(och)                                    // [C11.channel.fresh] the session offered to the application gets an outgoing channel no live session holds
+                 &&& och <= old(self).connection.agreed_channel_max                                                      // [C17.channel-max.never-above]
+                 &&& inc1 == old(self).connection.session_by_incoming_channel@.insert(channel, out1[och])                 // [C11.route.begin-maps] the peer's channel designates exactly the relay registered under that outgoing channel: frames the peer pipelines behind its begin reach the session that will be accepted, and no other
+            })
+        }),
+        r is Err && begin.remote_channel is None && final(self).session_listener.sent@.len() == old(self).session_listener.sent@.len()
+            && final(self).connection.session_by_outgoing_channel@ == old(self).connection.session_by_outgoing_channel@
+            ==> final(self).connection.session_by_incoming_channel@ == old(self).connection.session_by_incoming_channel@,   // [C11.route.refused-begin-maps-nothing] a begin that is refused before a session was allocated (state, channel in use, channel-max) maps nothing
+        old(self).connection.local_state is Opened && old(self).connection.session_by_incoming_channel@.contains_key(channel)
+            ==> r is Err && final(self).connection.session_by_incoming_channel@ == old(self).connection.session_by_incoming_channel@
+                && final(self).session_listener.sent@ == old(self).session_listener.sent@,                                // [C11.route.channel-in-use-refused] (listener side) a begin on a channel that still designates a session is refused; the holder stays, nothing is offered to the application
+//@@ end
+}
+
 /// C12 trace lemma (single step): once a close has been sent successfully no second close can succeed
 pub open spec fn close_was_sent(s: ConnectionState) -> bool {
     s is CloseSent || s is Discarding || s is End || s is ClosePipe || s is OpenClosePipe
